@@ -42,7 +42,7 @@ func VerifNewStepper[Type any](opts Opts[Type]) (*VerifStepper[Type], error) {
 }
 
 func (stp *VerifStepper[Type]) Discipline() *Discipline[Type] { return stp.dsc }
-func (stp *VerifStepper[Type]) Process(item []Type)             { stp.dsc.process(item) }
+func (stp *VerifStepper[Type]) Process(item []Type)           { stp.dsc.process(item) }
 func (stp *VerifStepper[Type]) Pass()                         { stp.dsc.pass() }
 func (stp *VerifStepper[Type]) IsTimeouted() bool             { return stp.dsc.isTimeouted() }
 func (stp *VerifStepper[Type]) SetPassAt(at time.Time)        { stp.dsc.passAt = at }
